@@ -5,11 +5,12 @@ import GarbleVerif.Model.MatchSpec
 # L7 — what the compiled circuit computes, at the level of bit lists (core fragment)
 
 `bitExpr` / `bitStmts` / `bitStmt` follow `compile.rs` (`TypedExpr::compile`, `TypedStmt::compile`) on the
-core fragment of the language — Booleans and integers of every width, literals, variables, `!`, unary
-`-`, `+`, `-`, `*`, `/`, `%`, `<<`, `>>`, `<`, `>`, `<=`, `>=`, `==`, `!=`, `&`, `|`, `^`, `&&`, `||`, casts between all of
-these types, `if`/`else` (as expression and as statement), `match` on a scalar whose arms cover its type, blocks, `()`, `let`, `let mut`, assignment
-to a variable and calls of functions with scalar parameters (`callAt`: the callee's body with its parameters bound to
-the argument wires) — but instead of emitting gates they compute the value every wire would carry for given
+core fragment of the language — Booleans and integers of every width with all their operators and casts, tuples,
+structs and arrays (literals, `t.i`, `s.f`, `[e; n]`, `lo..hi`, `a[i]`), `if`/`else`, `match` with literal, range,
+binding, tuple and struct patterns whose arms cover the type, blocks, `()`, `let` with irrefutable patterns, `let mut`,
+assignment to a variable and through `.i` / `.f` / `[i]` accessors, `for pattern in array`, and
+calls (`callAt`: the callee's body with its parameters bound to the argument wires)
+— but instead of emitting gates they compute the value every wire would carry for given
 inputs: operands become big-endian bit lists, operators are the bit-list functions of
 `Model/Arith.lean` (the same functions that C03 ties to `CircuitBuilder`), the panic record is its
 abstract state "reason of the first failing operation, if any" (C02): every expression reports the
@@ -68,9 +69,48 @@ def firstOf : List (Bool × Arith.PanicKind) → P
   | [] => none
   | (c, k) :: rest => if c then some (kindOf k) else firstOf rest
 
-abbrev BEnv := List (String × STy × List Bool)
+/-- the type of a value of the fragment: a scalar, or `()` (the value of an assignment, of a block that
+ends in a statement, of an `if` used as a statement) -/
+inductive VTy where
+  | s (t : STy)
+  | unit
+  /-- a tuple with at least one component, or an array (never a scalar or `()`: see `VTy.ofTy`) -/
+  | agg (t : Ty)
+deriving DecidableEq, Repr, Inhabited
 
-def BEnv.get? : BEnv → String → Option (STy × List Bool)
+/-- the one representation of a type -/
+def VTy.ofTy : Ty → VTy
+  | .bool => .s .bool
+  | .int k => .s (.int k)
+  | .tuple .nil => .unit
+  | t => .agg t
+
+def VTy.toTy : VTy → Ty
+  | .s t => t.toTy
+  | .unit => .tuple .nil
+  | .agg t => t
+
+/-- the `i`-th component of a tuple type and the number of bits in front of it -/
+def TyList.nth? : TyList → Nat → Option (Nat × Ty)
+  | .nil, _ => none
+  | .cons t _, 0 => some (0, t)
+  | .cons t r, i + 1 =>
+    match TyList.nth? r i with
+    | some (off, ti) => some (t.size + off, ti)
+    | none => none
+
+/-- the field `x` of a struct type and the number of bits in front of it -/
+def Fields.nth? : Fields → String → Option (Nat × Ty)
+  | .nil, _ => none
+  | .cons n t r, x =>
+    if n == x then some (0, t) else
+    match Fields.nth? r x with
+    | some (off, ti) => some (t.size + off, ti)
+    | none => none
+
+abbrev BEnv := List (String × VTy × List Bool)
+
+def BEnv.get? : BEnv → String → Option (VTy × List Bool)
   | [], _ => none
   | (n, t, bs) :: r, x => if n == x then some (t, bs) else BEnv.get? r x
 
@@ -100,13 +140,6 @@ def binBits (op : Src.BinOp) (t : STy) (x y : List Bool) : Option (STy × List B
   | .bor, .int k => let r := Arith.binop .bitOr k.signed k.signed k.signed x y; some (.int k, r.1, r.2)
   | .bxor, .int k => let r := Arith.binop .bitXor k.signed k.signed k.signed x y; some (.int k, r.1, r.2)
   | _, _ => none
-
-/-- the type of a value of the fragment: a scalar, or `()` (the value of an assignment, of a block that
-ends in a statement, of an `if` used as a statement) -/
-inductive VTy where
-  | s (t : STy)
-  | unit
-deriving DecidableEq, Repr, Inhabited
 
 /-- `assign_mut`: replaces the bits of the innermost binding of `x` -/
 def BEnv.set : BEnv → String → List Bool → BEnv
@@ -158,6 +191,63 @@ def patBits (p : Pat) (t : STy) (bs : List Bool) : Option (Bool × Option String
     else none
   | _, _, _ => none
 
+mutual
+/-- `TypedPattern::compile` on a value of type `t` with wires `bs`: the match bit and the variables the pattern
+binds (later ones first). A tuple pattern looks at the wires of each component and ANDs the bits. -/
+def patG : Pat → Ty → List Bool → Option (Bool × BEnv)
+  | .ident x, t, bs => some (true, [(x, VTy.ofTy t, bs)])
+  | .tuple ps, .tuple ts, bs => patsG ps ts bs
+  | .bool b, .bool, bs =>
+    match patBits (.bool b) .bool bs with
+    | some (m, _) => some (m, [])
+    | none => none
+  | .int n, .int k, bs =>
+    match patBits (.int n) (.int k) bs with
+    | some (m, _) => some (m, [])
+    | none => none
+  | .range lo hi, .int k, bs =>
+    match patBits (.range lo hi) (.int k) bs with
+    | some (m, _) => some (m, [])
+    | none => none
+  | .struct _ fps, .struct _ fs, bs => fieldsG fps fs bs
+  | _, _, _ => none
+def fieldsG : FieldPats → Fields → List Bool → Option (Bool × BEnv)
+  | .nil, _, _ => some (true, [])
+  | .cons n p r, fs, bs =>
+    match Fields.nth? fs n with
+    | some (off, ti) =>
+      match patG p ti ((bs.drop off).take ti.size), fieldsG r fs bs with
+      | some (m1, b1), some (m2, b2) => some (m1 && m2, b2 ++ b1)
+      | _, _ => none
+    | none => none
+def patsG : PatList → TyList → List Bool → Option (Bool × BEnv)
+  | .nil, .nil, _ => some (true, [])
+  | .cons p ps, .cons t ts, bs =>
+    match patG p t (bs.take t.size), patsG ps ts (bs.drop t.size) with
+    | some (m1, b1), some (m2, b2) => some (m1 && m2, b2 ++ b1)
+    | _, _ => none
+  | _, _, _ => none
+end
+
+mutual
+/-- bindings and tuples of them: patterns that match whatever the value is -/
+def Pat.total : Pat → Bool
+  | .ident _ => true
+  | .tuple ps => PatList.total ps
+  | .struct _ fps => FieldPats.total fps
+  | _ => false
+def PatList.total : PatList → Bool
+  | .nil => true
+  | .cons p ps => Pat.total p && PatList.total ps
+def FieldPats.total : FieldPats → Bool
+  | .nil => true
+  | .cons _ p ps => Pat.total p && FieldPats.total ps
+end
+
+/-- the pattern matches every value of the type (a binding, a tuple of bindings, or the reference procedure of C08
+finds nothing uncovered): what `let` and `for` require of their patterns -/
+def irrefutable (t : Ty) (p : Pat) : Bool := Pat.total p || (Src.uncovered t [p]).isNone
+
 /-- the last arm binds or ignores the value: the match is exhaustive whatever the other arms are -/
 def lastIsCatchAll : Arms → Bool
   | .nil => false
@@ -171,20 +261,28 @@ def armPats : Arms → List Pat
 
 /-- the arms cover every value of the scrutinee's type: the last one binds or ignores the value, or the reference
 procedure of C08 (`Src.uncovered`, proved exact) finds no uncovered value. The type checker accepts nothing else. -/
-def matchCovers (ts : STy) (arms : Arms) : Bool :=
-  lastIsCatchAll arms || (Src.uncovered ts.toTy (armPats arms)).isNone
+def matchCovers (ts : Ty) (arms : Arms) : Bool :=
+  lastIsCatchAll arms || (Src.uncovered ts (armPats arms)).isNone
 
-/-- the variables an arm is compiled with: the state after the scrutinee plus the pattern's binding -/
-def armEnv (bind : Option String) (ts : STy) (sb : List Bool) (benv1 : BEnv) : BEnv :=
-  match bind with
-  | some x => (x, ts, sb) :: benv1
-  | none => benv1
+/-- the wires of `n` consecutive elements of `sz` bits -/
+def chunks (sz : Nat) : Nat → List Bool → List (List Bool)
+  | 0, _ => []
+  | n + 1, bs => bs.take sz :: chunks sz n (bs.drop sz)
 
-/-- `env.pop()` after an arm: the pattern's binding goes out of scope -/
-def armOut (bind : Option String) (enve : BEnv) : BEnv :=
-  match bind with
-  | some _ => enve.drop 1
-  | none => enve
+/-- an unrolled loop: `f` compiles the body for one element from the variables the previous iteration left; the
+first panic wins, the bindings of an iteration end with it -/
+def foldLoop (f : List Bool → BEnv → Option (P × BEnv)) : List (List Bool) → P × BEnv → Option (P × BEnv)
+  | [], st => some st
+  | el :: rest, (p, env) =>
+    match f el env with
+    | some (pb, envb) => foldLoop f rest (seqP p pb, restoreB env envb)
+    | none => none
+
+/-- the variables an arm is compiled with: the state after the scrutinee plus the pattern's bindings -/
+def armEnv (bb : BEnv) (benv1 : BEnv) : BEnv := bb ++ benv1
+
+/-- `env.pop()` after an arm: the pattern's bindings go out of scope -/
+def armOut (bb : BEnv) (enve : BEnv) : BEnv := enve.drop bb.length
 
 /-- state of the arm loop of `ExprEnum::Match`: `has_prev_match`, the muxed value (`none`: still the initial
 zeros), the muxed panic (relative to the state after the scrutinee) and the muxed variables -/
@@ -192,7 +290,7 @@ abbrev ArmSt := Bool × Option (VTy × List Bool) × P × BEnv
 
 /-- what a call returns for given argument bits: type, bits and the first panic raised in the callee (`none`: the
 function is not part of the fragment) -/
-abbrev CallFn := String → List (STy × List Bool) → Option (VTy × List Bool × P)
+abbrev CallFn := String → List (VTy × List Bool) → Option (VTy × List Bool × P)
 
 mutual
 /-- type, bits, panic (the first one raised inside `e`, if any) and variables after an expression -/
@@ -201,7 +299,7 @@ def bitExpr (call : CallFn) (benv : BEnv) : Expr → Option (VTy × List Bool ×
   | .int n k => if k.inRange n then some (.s (.int k), intToBits n k.bits, none, benv) else none
   | .var x =>
     match benv.get? x with
-    | some (t, bs) => some (.s t, bs, none, benv)
+    | some (t, bs) => some (t, bs, none, benv)
     | none => none
   | .un .not .bool a =>
     match bitExpr call benv a with
@@ -312,17 +410,78 @@ def bitExpr (call : CallFn) (benv : BEnv) : Expr → Option (VTy × List Bool ×
     | none => none
   /- `()` -/
   | .tuple .nil => some (.unit, [], none, benv)
-  /- `match` on a scalar whose arms cover the type: every arm is compiled from the state after the scrutinee; value,
+  /- a tuple: the wires of its components one after the other -/
+  | .tuple (.cons e es) =>
+    match bitList call benv (.cons e es) with
+    | some (vs, p, env1) =>
+      some (.agg (.tuple (TyList.ofList (vs.map (·.1.toTy)))), vs.flatMap (·.2), p, env1)
+    | none => none
+  /- `t.i`: the wires of component `i` -/
+  | .tupleGet a i =>
+    match bitExpr call benv a with
+    | some (.agg (.tuple ts), bs, p, env1) =>
+      match TyList.nth? ts i with
+      | some (off, ti) => some (VTy.ofTy ti, (bs.drop off).take ti.size, p, env1)
+      | none => none
+    | _ => none
+  /- a struct literal: the wires of its fields in the order of the literal (the parser sorts them by name, as it
+  sorts the definition) -/
+  | .struct name fs =>
+    match bitFields call benv fs with
+    | some (vs, p, env1) =>
+      some (.agg (.struct name (Fields.ofList (vs.map fun x => (x.1, x.2.1.toTy)))), vs.flatMap (·.2.2), p, env1)
+    | none => none
+  /- `s.f`: the wires of the field -/
+  | .field a fname =>
+    match bitExpr call benv a with
+    | some (.agg (.struct _ fs), bs, p, env1) =>
+      match Fields.nth? fs fname with
+      | some (off, ti) => some (VTy.ofTy ti, (bs.drop off).take ti.size, p, env1)
+      | none => none
+    | _ => none
+  /- an array literal: the wires of its elements (all of one type) one after the other -/
+  | .array (.cons e es) =>
+    match bitList call benv (.cons e es) with
+    | some ((t, b) :: vs, p, env1) =>
+      if vs.all (fun x => x.1 = t) then
+        some (.agg (.array t.toTy (vs.length + 1)), b ++ vs.flatMap (·.2), p, env1)
+      else none
+    | _ => none
+  /- `[e; n]`: the element is compiled once, its wires are repeated -/
+  | .repeat_ a n =>
+    match bitExpr call benv a with
+    | some (t, bs, p, env1) => some (.agg (.array t.toTy n), (List.replicate n bs).flatten, p, env1)
+    | none => none
+  /- `lo..hi`: constants -/
+  | .range lo hi k =>
+    if hi ≤ lo ∨ (k.inRange (lo : Int) ∧ k.inRange ((hi : Int) - 1)) then
+      some (.agg (.array (.int k) (hi - lo)),
+        ((List.range (hi - lo)).map fun j => intToBits ((lo + j : Nat) : Int) k.bits).flatten, none, benv)
+    else none
+  /- `a[i]`: array, then index (a `usize`), then the bounds check. In bounds the result is the element's wires
+  (value-level abstraction of the mux tree of `ExprEnum::ArrayAccess`); out of bounds the access panics and the
+  wires are not looked at any more (zeros here). -/
+  | .index a i =>
+    match bitExpr call benv a with
+    | some (.agg (.array te n), abits, pa, env1) =>
+      match bitExpr call env1 i with
+      | some (.s (.int .usize), ibits, pi, env2) =>
+        let idx := bitsToNat ibits
+        some (VTy.ofTy te, (if idx < n then (abits.drop (idx * te.size)).take te.size else List.replicate te.size false),
+          seqP pa (seqP pi (if idx < n then none else some .outOfBounds)), env2)
+      | _ => none
+    | _ => none
+  /- `match` with arms that cover the type of the scrutinee: every arm is compiled from the state after the scrutinee; value,
   panic and variables of the first arm whose pattern matches are selected -/
   | .match_ scrut arms =>
     match bitExpr call benv scrut with
-    | some (.s ts, sb, ps, env1) =>
-      if matchCovers ts arms then
-        match bitArms call env1 ts sb arms (false, none, none, env1) with
+    | some (ts, sb, ps, env1) =>
+      if matchCovers ts.toTy arms then
+        match bitArms call env1 ts.toTy sb arms (false, none, none, env1) with
         | some (_, some (t, bs), pa, envF) => some (t, bs, seqP ps pa, envF)
         | _ => none
       else none
-    | _ => none
+    | none => none
   /- a call: the arguments are compiled left to right in the caller's scope, the callee's body sees its parameters
   only; the caller goes on with the variables the arguments left -/
   | .call fn args =>
@@ -334,26 +493,36 @@ def bitExpr (call : CallFn) (benv : BEnv) : Expr → Option (VTy × List Bool ×
     | none => none
   | _ => none
 /-- argument lists: left to right, the first panic wins -/
-def bitList (call : CallFn) (benv : BEnv) : ExprList → Option (List (STy × List Bool) × P × BEnv)
+def bitList (call : CallFn) (benv : BEnv) : ExprList → Option (List (VTy × List Bool) × P × BEnv)
   | .nil => some ([], none, benv)
   | .cons e rest =>
     match bitExpr call benv e with
-    | some (.s t, bs, p1, env1) =>
+    | some (t, bs, p1, env1) =>
       match bitList call env1 rest with
       | some (vs, p2, env2) => some ((t, bs) :: vs, seqP p1 p2, env2)
       | none => none
-    | _ => none
+    | none => none
+/-- the fields of a struct literal: left to right, the first panic wins -/
+def bitFields (call : CallFn) (benv : BEnv) : FieldExprs → Option (List (String × VTy × List Bool) × P × BEnv)
+  | .nil => some ([], none, benv)
+  | .cons n e rest =>
+    match bitExpr call benv e with
+    | some (t, bs, p1, env1) =>
+      match bitFields call env1 rest with
+      | some (vs, p2, env2) => some ((n, t, bs) :: vs, seqP p1 p2, env2)
+      | none => none
+    | none => none
 /-- the arm loop: `s = !has_prev_match && is_match` selects the arm -/
-def bitArms (call : CallFn) (benv1 : BEnv) (ts : STy) (scrut : List Bool) : Arms → ArmSt → Option ArmSt
+def bitArms (call : CallFn) (benv1 : BEnv) (ts : Ty) (scrut : List Bool) : Arms → ArmSt → Option ArmSt
   | .nil, st => some st
   | .cons p e rest, (hasPrev, ret, pacc, envAcc) =>
-    match patBits p ts scrut with
+    match patG p ts scrut with
     | none => none
-    | some (m, bind) =>
-      match bitExpr call (armEnv bind ts scrut benv1) e with
+    | some (m, bb) =>
+      match bitExpr call (armEnv bb benv1) e with
       | none => none
       | some (te, be, pe, enve) =>
-        let envOut := armOut bind enve
+        let envOut := armOut bb enve
         let s := !hasPrev && m
         match ret with
         | some (tr, rbits) =>
@@ -379,29 +548,136 @@ def bitStmts (call : CallFn) (benv : BEnv) : StmtList → Option (VTy × List Bo
 def bitStmt (call : CallFn) (benv : BEnv) : Stmt → Option (VTy × List Bool × P × BEnv)
   | .let_ (.ident x) e =>
     match bitExpr call benv e with
-    | some (.s t, bs, p1, env1) => some (.unit, [], p1, (x, t, bs) :: env1)
-    | _ => none
+    | some (t, bs, p1, env1) => some (.unit, [], p1, (x, t, bs) :: env1)
+    | none => none
+  /- `let (a, (b, _)) = e;`: an irrefutable pattern binds the wires of the components (its match bit is not used) -/
+  | .let_ (.tuple ps) e =>
+    match bitExpr call benv e with
+    | some (t, bs, p1, env1) =>
+      if irrefutable t.toTy (.tuple ps) then
+        match patG (.tuple ps) t.toTy bs with
+        | some (_, bb) => some (.unit, [], p1, bb ++ env1)
+        | none => none
+      else none
+    | none => none
+  | .let_ (.struct sn fps) e =>
+    match bitExpr call benv e with
+    | some (t, bs, p1, env1) =>
+      if irrefutable t.toTy (.struct sn fps) then
+        match patG (.struct sn fps) t.toTy bs with
+        | some (_, bb) => some (.unit, [], p1, bb ++ env1)
+        | none => none
+      else none
+    | none => none
   | .letMut x e =>
     match bitExpr call benv e with
-    | some (.s t, bs, p1, env1) => some (.unit, [], p1, (x, t, bs) :: env1)
-    | _ => none
+    | some (t, bs, p1, env1) => some (.unit, [], p1, (x, t, bs) :: env1)
+    | none => none
   /- `x = e`: the value is compiled first, then the innermost binding of `x` is replaced -/
   | .assign x .nil e =>
     match bitExpr call benv e with
-    | some (.s t, bs, p1, env1) =>
+    | some (t, bs, p1, env1) =>
       match env1.get? x with
       | some (t', _) => if t' = t then some (.unit, [], p1, env1.set x bs) else none
       | none => none
-    | _ => none
+    | none => none
+  /- `x.0[i] = e`: the value, then the wires of `x` as they are now, then the accessors from the outside in — each
+  index expression followed by its bounds check — and the wires of the component replaced -/
+  | .assign x (.index i rest) e =>
+    match bitExpr call benv e with
+    | some (t, bs, p1, env1) =>
+      match env1.get? x with
+      | some (tx, xbits) =>
+        match bitUpd call env1 tx.toTy xbits t bs (.index i rest) with
+        | some (xbits', p2, env2) => some (.unit, [], seqP p1 p2, env2.set x xbits')
+        | none => none
+      | none => none
+    | none => none
+  | .assign x (.tup i rest) e =>
+    match bitExpr call benv e with
+    | some (t, bs, p1, env1) =>
+      match env1.get? x with
+      | some (tx, xbits) =>
+        match bitUpd call env1 tx.toTy xbits t bs (.tup i rest) with
+        | some (xbits', p2, env2) => some (.unit, [], seqP p1 p2, env2.set x xbits')
+        | none => none
+      | none => none
+    | none => none
+  | .assign x (.fld f rest) e =>
+    match bitExpr call benv e with
+    | some (t, bs, p1, env1) =>
+      match env1.get? x with
+      | some (tx, xbits) =>
+        match bitUpd call env1 tx.toTy xbits t bs (.fld f rest) with
+        | some (xbits', p2, env2) => some (.unit, [], seqP p1 p2, env2.set x xbits')
+        | none => none
+      | none => none
+    | none => none
   | .expr e => bitExpr call benv e
+  /- `for x in arr { body }`: unrolled; every iteration is compiled from the variables the previous one left, with
+  `x` bound to the element's wires for the duration of the body -/
+  | .for_ pat arr body =>
+    match bitExpr call benv arr with
+    | some (.agg (.array te n), abits, pa, env1) =>
+      if irrefutable te pat then
+        match foldLoop (fun el env =>
+            match patG pat te el with
+            | some (_, bb) =>
+              match bitStmts call (bb ++ env) body with
+              | some (_, _, pb, envb) => some (pb, envb)
+              | none => none
+            | none => none) (chunks te.size n abits) (pa, env1) with
+        | some (p, env2) => some (.unit, [], p, env2)
+        | none => none
+      else none
+    | _ => none
   | _ => none
+/-- the wires `cur` of a value of type `t` with the component at the end of the path replaced by `vb` (of type `vt`);
+an index out of bounds leaves the wires as they are and panics -/
+def bitUpd (call : CallFn) (benv : BEnv) (t : Ty) (cur : List Bool) (vt : VTy) (vb : List Bool) :
+    Path → Option (List Bool × P × BEnv)
+  | .nil => if VTy.ofTy t = vt then some (vb, none, benv) else none
+  | .tup i rest =>
+    match t with
+    | .tuple ts =>
+      match TyList.nth? ts i with
+      | some (off, ti) =>
+        match bitUpd call benv ti ((cur.drop off).take ti.size) vt vb rest with
+        | some (sub, p, env1) => some (cur.take off ++ sub ++ cur.drop (off + ti.size), p, env1)
+        | none => none
+      | none => none
+    | _ => none
+  | .index ie rest =>
+    match t with
+    | .array te n =>
+      match bitExpr call benv ie with
+      | some (.s (.int .usize), ibits, pi, env1) =>
+        let idx := bitsToNat ibits
+        let off := (if idx < n then idx else 0) * te.size
+        match bitUpd call env1 te ((cur.drop off).take te.size) vt vb rest with
+        | some (sub, p, env2) =>
+          some (if idx < n then cur.take off ++ sub ++ cur.drop (off + te.size) else cur,
+            seqP pi (seqP (if idx < n then none else some .outOfBounds) p), env2)
+        | none => none
+      | _ => none
+    | _ => none
+  | .fld f rest =>
+    match t with
+    | .struct _ fs =>
+      match Fields.nth? fs f with
+      | some (off, ti) =>
+        match bitUpd call benv ti ((cur.drop off).take ti.size) vt vb rest with
+        | some (sub, p, env1) => some (cur.take off ++ sub ++ cur.drop (off + ti.size), p, env1)
+        | none => none
+      | none => none
+    | _ => none
 end
 
 /-- the callee's scope: its parameters bound to the argument bits (types must agree), last parameter innermost -/
-def bindParams : List (String × Ty) → List (STy × List Bool) → Option BEnv
+def bindParams : List (String × Ty) → List (VTy × List Bool) → Option BEnv
   | [], [] => some []
   | (x, ty) :: ps, (t, bs) :: as =>
-    if STy.ofTy ty = some t then
+    if VTy.ofTy ty = t then
       match bindParams ps as with
       | some env => some (env ++ [(x, t, bs)])
       | none => none
